@@ -236,7 +236,7 @@ func c13BuildSpecials() {
 		c13Call("hCat", s1, c13Str("k1")), c13Call("hCat", s1, s2), c13Call("hCat", c13Str("k1"), c13Str("zed")), c13Call("hBr", s1), c13Call("hBr", c13P("se")),
 		c13Call("hKind", n1), c13Call("hKind", c13P("l")), c13Call("hKind", c13P("f32")), c13Call("hId", s1), c13Call("hId", c13P("n0")), c13Call("hId", c13P("bf")),
 		c13Call("hJoin", c13Str("k1"), c13Str("zed")), c13Call("hJoin"), c13Call("hSum", c13Int(1), c13Int(2), c13Int(3)), c13Call("hSum", n1),
-		c13Call("hCtx", s1), c13Call("hCtxSub", n1, n2), c13Call("hErrS", s1), c13Call("hErrI", n1), c13Call("hFSub", c13P("f1"), c13Lit("f", "0.5")),
+		c13Call("hCtx", s1), c13Call("hCtxSub", n1, n2), c13Call("hCtxJoin", s1, c13Str("k1")), c13Call("hCtxJoin", s1), c13Call("hCtxJoin"), c13Call("hCtxSum", n1, n2, c13Int(3)), c13Call("hCtxSum", n1), c13Call("hErrS", s1), c13Call("hErrI", n1), c13Call("hFSub", c13P("f1"), c13Lit("f", "0.5")),
 		c13Call("hUSum", c13Int(1), c13Int(2)), c13Call("hSub64", c13P("i64"), c13Int(2)), c13Call("hRep", s1, c13Int(2)), c13Call("hRep", s1, c13P("n0")),
 	} {
 		add("call/custom", e)
@@ -294,9 +294,9 @@ const c13NStartsLen3 = 4
 func c13BuildChains() {
 	c13Steps = []c13E{
 		c13Call("upper"), c13Call("lower"), c13Call("trim"), c13Call("title"), c13Call("escape"), c13Call("string"), c13Call("default", c13Str("fb")),
-		c13Call("hBr"), c13Call("hCat", c13Str("k1")), c13Call("hCat", c13P("s2")), c13Call("hErrS"), c13Call("hCtx"), c13Call("hRep", c13Int(2)), c13Call("hJoin", c13Str("k1")),
+		c13Call("hBr"), c13Call("hCat", c13Str("k1")), c13Call("hCat", c13P("s2")), c13Call("hErrS"), c13Call("hCtx"), c13Call("hRep", c13Int(2)), c13Call("hJoin", c13Str("k1")), c13Call("hCtxJoin"), c13Call("hCtxJoin", c13Str("k1")),
 		c13Call("len"), c13Call("int"),
-		c13Call("hDbl"), c13Call("hSub", c13Int(1)), c13Call("hSub", c13P("n2")), c13Call("hSum", c13Int(1), c13Int(2)), c13Call("hCtxSub", c13Int(1)), c13Call("hErrI"), c13Call("hSub64", c13Int(2)), c13Call("hUSum", c13Int(3)),
+		c13Call("hDbl"), c13Call("hSub", c13Int(1)), c13Call("hSub", c13P("n2")), c13Call("hSum", c13Int(1), c13Int(2)), c13Call("hCtxSub", c13Int(1)), c13Call("hCtxSum"), c13Call("hCtxSum", c13Int(2)), c13Call("hErrI"), c13Call("hSub64", c13Int(2)), c13Call("hUSum", c13Int(3)),
 		c13Call("hPos"), c13Call("hNot"), c13Call("hImp", c13P("bf")), c13Call("hFSub", c13Lit("f", "0.5")),
 		c13Call("json"), c13Call("hKind"), c13Call("hId"),
 	}
